@@ -192,7 +192,8 @@ CLAIMED['C17'] = dict(
          'nodes), C17_delete_own_only (every call of a delete request is on a path registered for that container), '
          'C17_newer_kept (a path re-registered by a newer container is not visited by the old container\'s clean-up); '
          'tied to the code by running the real PresenceResourceService as concurrent clients against a shared '
-         'in-memory ZooKeeper with seed-chosen schedules. Second stage (Node/EpPresence.v, built by a sub-agent): '
+         'in-memory ZooKeeper with seed-chosen schedules (ZooKeeper calls made from a watch callback run in place, '
+         'where the deleting client\'s step fires it). Second stage (Node/EpPresence.v, built by a sub-agent): '
          'presence.EndpointPresence register/unregister_* and trace.app.zk._unschedule for all node tables and all '
          'operation lists by any number of hosts: C17_ep_unregister_*_exact (what each call deletes: the node of its own '
          'host and nothing else), C17_ep_foreign_nodes_survive, C17_ep_newer_elsewhere_kept, '
@@ -329,7 +330,10 @@ CLAIMED['C11'] = dict(
          'canonical dump of the real Master.cell right after load_model() against the dump of the model run, on '
          'E-master restarts and directly generated stores (harness/props/c11load.py). Inputs of that model rather '
          'than modelled: the fnmatch decisions of find_assignment / _is_blacklisted, the valid_until that Partition.add '
-         'assigns, the clock.',
+         'assigns, the clock. The read side of the store (fourth session): the zkutils / ZkBackend stage of C09 '
+         '(Store/ZkUtils.v, Props/C09Zk.v) also runs here - what ZkBackend.get / get_default / '
+         'ZkReadonlyBackend.get_with_metadata decode from a stored record is the record (E-master replaces the backend '
+         'by an in-memory one, so this is the only place the real read path is exercised).',
     note=MASTER_NOTE + ' Server.restore/put answers are taken from the implementation in the correspondence and from '
          'Sched/Tree.v in RestoreSchedP.v; the oracle skips over-committed servers and doubly recorded instances.',
     technique='Rocq proof (frame lemmas over Sched primitives, fold over a server\'s nodes) + oracle and '
